@@ -421,13 +421,14 @@ func (m *Memory) FindLatest(
 		var ret []*amhist.MemoryRecord
 
 	records:
-		for id := m.nextId.Load() - 1; id > 0; id-- {
+		for id := m.nextId.Load() - 1; id > 0 || older != nil; id-- {
 			if ctx.Err() != nil || m.Ctx.Err() != nil {
 				return nil
 			}
 
 			v, err := getVal(txn, timeKey(machId, id))
-			if err != nil {
+			// no more records, unless the oldest one still awaits its pass
+			if err != nil && older == nil {
 				m.log("empty hit for %d", id)
 				break
 			}
@@ -462,6 +463,7 @@ func (m *Memory) FindLatest(
 			} else {
 				r = older
 				older = nil
+				err = nil
 			}
 			// err
 			if err != nil {
